@@ -733,7 +733,7 @@ package loadbalancer
 //@   ensures nothing_new: forall b *Backend :: inPool(lb, b) ==> old(inPool(lb, b))
 //@   ensures same_strategy: lb.strategy == old(lb.strategy)
 //@   modifies RoundRobinStrategy.backends, LeastConnectionsStrategy.backends, WeightedRoundRobinStrategy.backends, IPHashStrategy.backends, IPHashConsistentStrategy.backends,
-//@            key:[]*loadbalancer.Backend, key:[]*loadbalancer.weightedBackend
+//@            key:[]*loadbalancer.Backend, key:[]*loadbalancer.weightedBackend, weightedBackend.currentWeight
 //@ loop (*LoadBalancer).RemoveBackend #0
 //@   props C11 C12
 //@   invariant idx: rangeindex < len(ranged)
